@@ -310,7 +310,17 @@ func (e *Engine) convert(g *Goroutine, v Value, from, to types.Type) Value {
 			if a.IsConst() {
 				return e.constString(string(rune(a.Int())))
 			}
-			e.abort("unsupported", "symbolic rune to string")
+			// symbolic code point: 1-byte and 2-byte UTF-8 forms (values below 0x800)
+			v := tb.Resize(a, 32, isSigned(from))
+			if e.Branch(tb.Cmp(term.KUlt, v, tb.Const(32, 0x80))) {
+				return e.newString([]*term.T{tb.Extract(v, 7, 0)})
+			}
+			if e.Branch(tb.Cmp(term.KUlt, v, tb.Const(32, 0x800))) {
+				b0 := tb.Bin(term.KBvOr, tb.Const(8, 0xC0), tb.Extract(tb.Bin(term.KLShr, v, tb.Const(32, 6)), 7, 0))
+				b1 := tb.Bin(term.KBvOr, tb.Const(8, 0x80), tb.Bin(term.KBvAnd, tb.Extract(v, 7, 0), tb.Const(8, 0x3F)))
+				return e.newString([]*term.T{b0, b1})
+			}
+			e.abort("unsupported", "symbolic rune >= 0x800 to string")
 		}
 		w, ok := bitWidth(to)
 		if !ok {
